@@ -10,3 +10,5 @@ import GitBugModel.Lemmas.PackSort
 import GitBugModel.Props.C03
 import GitBugModel.Props.C01
 import GitBugModel.Props.C02
+import GitBugModel.Model.Lamport
+import GitBugModel.Props.C05
